@@ -58,7 +58,7 @@ pub fn run(out: &RunOut, p: &str) -> MonOut {
         let mut pending_ping: Option<usize> = None; // index into xs
         let mut pre_step: Option<(u32, Option<TimeRec>)> = None;
         // (site, presented, previous commit, values then current) of commits awaiting their check's result
-        let mut deferred: Vec<(String, Triple, Option<Triple>, Triple)> = vec![];
+        let mut deferred: Vec<(String, Triple, Option<Triple>, Triple, Option<Option<u128>>)> = vec![];
         let mut sig = String::new();
         for i in l.start..l.end {
             let r = &h[i];
@@ -82,14 +82,21 @@ pub fn run(out: &RunOut, p: &str) -> MonOut {
                         let pre = pre_step.as_ref().map(|(f, l)| stored_form(&Triple { failures: *f, last: l.clone(), poll: md.poll }));
                         let pair_ok = (t.failures == cur.failures && t.last == cur.last)
                             || pre.as_ref().map(|p| t.failures == p.failures && t.last == p.last).unwrap_or(false);
-                        let poll_ok = t.poll == cur.poll || Some(t.poll) == prev_probe.as_ref().map(|p| p.poll);
+                        // the interval (C07's subject) may be committed before it is announced: the value of
+                        // the next announcement / policy argument is admissible as well
+                        let next_poll: Option<Option<u128>> = (i + 1..l.end).find_map(|j| match &h[j].kind {
+                            Kind::Event(EventRec::Proto(pr)) => Some(pr.poll_ns),
+                            Kind::Policy(PolicyRec::ComputeNext { proto, .. }) | Kind::Policy(PolicyRec::CheckAllowed { proto, .. }) => Some(proto.poll_ns),
+                            _ => None,
+                        });
+                        let poll_ok = t.poll == cur.poll || Some(t.poll) == prev_probe.as_ref().map(|p| p.poll) || Some(t.poll) == next_poll;
                         let ok = Some(&t) == prev_probe.as_ref() || (pair_ok && poll_ok);
                         // a commit made inside a check before its result is announced may already hold
                         // the values the check ends with: judged when the result is known
                         let open_check = checks.iter().any(|c| c.start <= i && i < c.end && c.result_idx.map(|r| r > i).unwrap_or(true));
                         if !ok && open_check {
                             m.count("R3.commits_before_the_result");
-                            deferred.push((site.clone(), t.clone(), prev_probe.clone(), cur.clone()));
+                            deferred.push((site.clone(), t.clone(), prev_probe.clone(), cur.clone(), next_poll));
                         } else if !ok {
                             m.viol(p, "R3", &site, format!("committed state presents {:?}: neither the previous commit {:?} nor the current values {:?}", t, prev_probe, cur));
                         }
@@ -236,11 +243,11 @@ pub fn run(out: &RunOut, p: &str) -> MonOut {
                         }
                     }
                     last_commit_after_result = None;
-                    for (dsite, t, prevp, then) in deferred.drain(..) {
+                    for (dsite, t, prevp, then, next_poll) in deferred.drain(..) {
                         if let (Some(md), false) = (&model, resync) {
                             let cur = stored_form(md);
                             let pair_ok = t.failures == cur.failures && t.last == cur.last;
-                            let poll_ok = t.poll == cur.poll || Some(t.poll) == prevp.as_ref().map(|p| p.poll) || t.poll == then.poll;
+                            let poll_ok = t.poll == cur.poll || Some(t.poll) == prevp.as_ref().map(|p| p.poll) || t.poll == then.poll || Some(t.poll) == next_poll;
                             if !(pair_ok && poll_ok) {
                                 m.viol(p, "R3", &dsite, format!("committed state presents {:?}: neither the previous commit {:?}, nor the values current then {:?}, nor those the check ended with {:?}", t, prevp, then, cur));
                             }
